@@ -10,10 +10,20 @@ C02_KINDS = {"equivocation", "proposal-equivocation", "sent-before-durable"}
 
 
 def env_behaviours(ctx, n, *, max_crash, max_ops, seed_off=0):
-    """n schedules: half from the round-structured generator CsScript, half from the free-form CsEnv."""
-    a = _walks(ctx, "Gen_CsScript", n - n // 2, dict(MaxOps=max_ops + 8, MaxCrash=max_crash, MaxRound=2), 3 * max_ops + 20, seed_off)
-    b = _walks(ctx, "Gen_CsEnv", n // 2, dict(MaxOps=max_ops, Depth=max_ops, MaxCrash=max_crash), 3 * max_ops, seed_off + 1)
-    return a + b
+    """n schedules: round-structured (CsScript) and free-form (CsEnv) walks at height 1, and two-height schedules: the
+    engine is handed block 1 with its commit votes (fast-sync path), then a CsScript walk generated for height 2
+    (other proposer rotation; restarts there exercise the commit-WAL / last-votes restore)."""
+    n2 = n // 4
+    n1 = n - n2
+    a = _walks(ctx, "Gen_CsScript", n1 - n1 // 2, dict(MaxOps=max_ops + 8, MaxCrash=max_crash, MaxRound=2), 3 * max_ops + 20, seed_off)
+    b = _walks(ctx, "Gen_CsEnv", n1 // 2, dict(MaxOps=max_ops, Depth=max_ops, MaxCrash=max_crash), 3 * max_ops, seed_off + 1)
+    c = _walks(ctx, "Gen_CsScript", n2, dict(H=2, MaxOps=max_ops + 4, MaxCrash=max_crash, MaxRound=1), 3 * max_ops + 20, seed_off + 2)
+    two = []
+    for w in c:
+        others = [i for i in range(4) if i != w["me"]]
+        pre = [{"op": "block", "r": 0, "from": others, "val": "B%d" % others[0]}, {"op": "height", "r": 0}]
+        two.append(dict(me=w["me"], byz=w.get("byz", 0), steps=pre + w["steps"], heights=2))
+    return a + b + two
 
 
 def _walks(ctx, gen, n, consts, depth, seed_off):
@@ -66,6 +76,8 @@ def interest(b):
                 score += 2 if s["val"] != "nil" and polka.get(s["r"]) == s["val"] else 1
             if locked_at is not None and s["r"] < max(polka) and s["type"] == "pv":
                 score += 1              # late prevotes of an earlier round
+        elif s["op"] == "block":
+            score += 3
         elif s["op"] == "crash":
             score += 2 if polka else 0
         elif s["op"] == "wait":
@@ -140,6 +152,9 @@ def run_nodes(ctx, behaviours, kinds, shards, test="TestNode"):
             feats["reproposal"] += 1
     for k, v in feats.items():
         ctx.cov["runs_with_" + k] = ctx.cov.get("runs_with_" + k, 0) + int(v)
+    for t, bs in other.items():
+        ctx.notes.append("sibling clause rejected: %s %s (behaviour: %s)" % (t, [(b["kind"], b["seq"]) for b in bs],
+                         json.dumps((cases.get(t.split(".")[0]) or {}).get("detail", {}).get("behaviour"))[:1500]))
     ctx.notes.append("trace validation: %d recorded events of %d real engine executions checked against CsContract; "
                      "%d executions rejected for this property%s"
                      % (len(lines), len(cases), len(bad),
